@@ -446,3 +446,33 @@ def keyword_value_rule(m, rid):
         if not ok:
             r.fail("KeywordValueBase|%s|%s" % (args[2], sorted(kw)), "%s gives %r, expected %r" % (desc, got, want), m.loc(f))
     return r
+
+
+def sequence_rule(m, rid):
+    r = RuleResult(rid, "SequenceBase.match, decided as a table: the text is cut at every top-level separator, every piece (stripped) reaches the "
+                        "element class in order, and the pieces re-assemble to the text")
+    r.floor = 6
+    f = m.method(m.key("SequenceBase", UTILS), "match")
+    if f is None:
+        r.error("SequenceBase.match vanished")
+        return r
+    ev = PE.Evaluator({"string_replace_map": lambda s_, lower=False: (s_, lambda x: x),
+                       "InternalError": lambda *a: None})
+    X = ctor("X")
+    cases = [
+        ((",", X, "a, b"), (",", ("a", "b"))), ((",", X, "a"), (",", ("a",))), ((",", X, " a ,b , c "), (",", ("a", "b", "c"))),
+        ((",", X, "a,,b"), (",", ("a", "", "b"))), (("%", X, "a % b%c"), ("%", ("a", "b", "c"))), ((",", X, "a b, c"), (",", ("a b", "c"))),
+        (("//", X, "a // b"), ("//", ("a", "b"))),
+    ]
+    for args, want in cases:
+        r.instances += 1
+        got = run(ev, f, list(args))
+        shown = got
+        if isinstance(got, tuple) and len(got) == 2 and isinstance(got[1], (tuple, list)):
+            shown = (got[0], tuple(x.text if isinstance(x, Node) else x for x in got[1]))
+        ok = shown == want
+        r.ob(ok, "SequenceBase.match(%r, X, %r) -> %r" % (args[0], args[2], shown))
+        if not ok:
+            r.fail("SequenceBase|%s|%s" % (args[0], args[2]), "SequenceBase.match(%r, X, %r) gives %r, expected %r (every piece, in order, stripped)"
+                   % (args[0], args[2], shown, want), m.loc(f))
+    return r
